@@ -116,6 +116,7 @@ class World:
         self.skip_swrite = skip_swrite
         self.name_holders = name_holders
         self.gave_up = False
+        self.unsettled = False
         self.marks = set()
         self.conns = []          # Conn per server-side socket object, in order of first sighting
         self.exceptions = []     # repr strings only (no tracebacks are kept)
@@ -128,7 +129,7 @@ class World:
         class Obs(BaseComponent):
             @handler(channel='*', priority=100)
             def _v_see(self, event, *args, **kwargs):
-                world.observe(event, args)
+                world.observe(event, args, kwargs)
 
         self.root = Obs()
         self.root._running = True    # vlib.driver.mark_running: generate_events is only fired by a running manager
@@ -146,7 +147,7 @@ class World:
         self.conns.append(c)
         return c
 
-    def observe(self, event, args):
+    def observe(self, event, args, kwargs=None):
         name = event.name
         if name[0] == '_' or name == 'generate_events' or not self.observing:
             return
@@ -155,7 +156,7 @@ class World:
             self.harness_event(event, *h)
             return
         if name == 'exception':
-            fe = args[4] if len(args) > 4 else None
+            fe = (kwargs or {}).get('fevent')
             self.exceptions.append('%s in handler of %s' % (repr(args[1])[:120], getattr(fe, 'name', None)))
             self.records += 1
             return
@@ -1091,8 +1092,8 @@ def plan(tier, seed):
         return specs
     specs = [{'kind': 'corpus', 'part': i, 'parts': 3} for i in range(3)]
     for poller in POLLERS:
-        specs += [{'kind': 'random', 'seed': seed * 100000 + i, 'n': 700, 'poller': poller} for i in range(8)]
-    specs += [{'kind': 'clients', 'seed': seed * 100000 + 50000 + i, 'n': 700} for i in range(6)]
+        specs += [{'kind': 'random', 'seed': seed * 100000 + i, 'n': 1000, 'poller': poller} for i in range(8)]
+    specs += [{'kind': 'clients', 'seed': seed * 100000 + 50000 + i, 'n': 1000} for i in range(6)]
     return specs
 
 
